@@ -468,6 +468,13 @@ static void byz_gen(Plan *p, uint64_t base_seed, uint64_t variant, int tier)
 	int dir = p->victim == 0 ? DIR_S2C : DIR_C2S;
 	int n = g_btwin.nrec[dir];
 	if (n <= 0) return;
+	if (variant == 15) {
+		/* no byzantine peer, but the victim's allocator fails: the out-of-memory paths of the handshake and of
+		 * record sending run under the sanitizers (and under the leak monitor in the C19 parts) */
+		p->nfaults = 0;
+		p->afail_node = p->victim; p->afail_at = rng_below(&v, 6); p->afail_rest = rng_below(&v, 2);
+		return;
+	}
 	p->nfaults = 1 + (int)rng_below(&v, 3);
 	for (int i = 0; i < p->nfaults; i++) {
 		Fault *f = &p->faults[i];
@@ -487,8 +494,15 @@ static void byz_run(const Plan *p, RunResult *r)
 	conn_run(p, creds_get((int)p->depth, p->proto == P_TLCP), &o, byz_on_record, NULL);
 	r->faults_fired[F_MUT] = g_byz_fired;
 	r->nontrivial = g_byz_fired > 0;
+	if (p->afail_at >= 0) {
+		int fired = 0;
+		for (int i = 0; i < 2; i++) fired += g_sim.nodes[i].afail_fired;
+		r->faults_cfg[F_AFAIL] = 1; r->faults_fired[F_AFAIL] = fired > 0;
+		if (fired) r->nontrivial = 1;
+	}
 	uint64_t h = 0xb1 + (uint64_t)p->proto * 3 + (uint64_t)p->victim;
 	for (int i = 0; i < p->nfaults; i++) h = hash_bytes(h, (int64_t[]){ p->faults[i].rec, p->faults[i].a }, 16);
+	if (p->afail_at >= 0) h = hash_bytes(h, (int64_t[]){ p->afail_node, p->afail_at, p->afail_rest, p->mutual }, 32);
 	r->fault_id = r->nontrivial_id = h;
 	snprintf(r->extra, sizeof(r->extra), "proto=%s mutual=%d depth=%d victim=%s rec=%d mut=%s reenc=%d done=%d/%d",
 		g_proto_names[p->proto], (int)p->mutual, (int)p->depth, p->victim ? "server" : "client",
